@@ -3,6 +3,7 @@ import O2P.Model.Time
 import O2P.Model.Seq
 import O2P.Model.Store
 import O2P.Model.Jq
+import O2P.Model.JqCore
 import O2P.Model.Diagram
 import O2P.Model.Learn
 import O2P.Props.C07
@@ -316,8 +317,17 @@ def run (j : Json) : Except String Json := do
   let docs ← (← getArr j "docs").toList.mapM decode
   let p := O2P.Jq.compile m
   let recs := docs.map fun d => (O2P.Jq.extract p d).map fun r => Json.mkObj (r.map fun (k, v) => (k, encode v))
+  -- the emitted query: its text, whether the program is well-formed, and what the jq semantics makes of it
+  let q := O2P.Jq.emitProgram p
+  let evald := docs.map fun d =>
+    let r := O2P.Jq.runQuery q d
+    Json.mkObj [("err", Json.bool r.err),
+      ("outs", Json.arr (r.outs.map encode).toArray)]
   pure <| Json.mkObj [("records", Json.arr (recs.map fun rs => Json.arr rs.toArray).toArray),
-    ("events", Json.arr ((O2P.Jq.source p docs).map eventJson).toArray)]
+    ("events", Json.arr ((O2P.Jq.source p docs).map eventJson).toArray),
+    ("query", Json.str (O2P.Jq.emitText m)),
+    ("wf", Json.bool (O2P.Jq.wfProgram p)),
+    ("evaluated", Json.arr evald.toArray)]
 
 end JqOps
 
